@@ -63,6 +63,9 @@ AcceptVerdicts(b, pre, res, ctx, what) ==
                 IF KF_CovCache(b, cm, h, ctx) THEN "KF-covenant-cache" ELSE "")} ELSE {})
   \cup (IF ok /\ ~c.fees THEN {V("C05", "accepted a transaction paying less than the minimum fee", "")} ELSE {})
   \cup (IF ok /\ ~c.unlocked THEN {V("C13", "accepted a spend of a coin locked by a stake", "")} ELSE {})
+  \* C02's acceptance condition names the same three clauses: authorised, unlocked, fee-paying
+  \cup (IF ok /\ c.resolvable /\ (~c.covenants \/ ~c.fees \/ ~c.unlocked)
+        THEN {V("C02", "accepted a batch with a member that is not authorised, not unlocked or not fee-paying", "")} ELSE {})
   \* the deliberate legacy rule of Mainnet/Testnet below LEGACY_STAKE_LOCK: outputs of stake transactions are not locked
   \cup (IF ok /\ ~StakeLockActive(pre.net, h) /\ \E i \in DOMAIN b : \E j \in DOMAIN b[i].ins : b[i].ins[j].id[1] \in DOMAIN StakeMap(pre)
         THEN {V("C13", "accepted a spend of a coin locked by a stake", "KF-legacy-stake-lock-window")} ELSE {})
